@@ -16,6 +16,12 @@ T1_RULE = ("every state of the real FixedBuf<N> reachable from every constructor
            "{4,7,8,16,64,255,4096}; a case is one (state, call); distinct = distinct (state, call) strings; non-trivial = the call "
            "changes the state or returns bytes")
 
+def tokio_jobs(*modes):
+    def f(tier):
+        return [{"which": "tokio", "profile": "dev", "args": [m], "oc": True} for m in modes]
+    return f
+
+
 def sync_jobs(mode, profiles=("dev",)):
     def f(tier):
         return [{"which": "sync", "profile": p, "args": [mode], "oc": p == "dev"} for p in profiles]
@@ -107,13 +113,75 @@ PROPS = {
         "trusted_extra": ["std::io::Take modelled by hand from the pinned std source (tied three-way on every run)"],
     },
     "C13": {
-        "claimed": False,
         "module": "FBV.Props.C13",
         "theorems": ["FBV.C13.chain_write", "FBV.C13.chain_flush", "FBV.C13.take_write", "FBV.C13.take_flush",
-                     "FBV.C13.chain_read_no_write", "FBV.C13.take_read_no_write"],
-        "jobs": (lambda tier: [{"which": "sync", "profile": "dev", "args": ["chain"], "oc": True}, {"which": "sync", "profile": "dev", "args": ["take"], "oc": True}]),
-        "tie": "T2 with a logging inner read-writer",
-        "rule": AD_RULE,
+                     "FBV.C13.chain_read_no_write", "FBV.C13.take_read_no_write",
+                     "FBV.C13.achain_write", "FBV.C13.achain_flush", "FBV.C13.atake_write", "FBV.C13.atake_flush", "FBV.C13.asrw_pollRead_no_write"],
+        "jobs": (lambda tier: [{"which": "sync", "profile": "dev", "args": ["chain"], "oc": True}, {"which": "sync", "profile": "dev", "args": ["take"], "oc": True},
+                               {"which": "tokio", "profile": "dev", "args": ["achain"], "oc": True}, {"which": "tokio", "profile": "dev", "args": ["atake"], "oc": True}]),
+        "tie": "T2 all four adapters over a logging inner read-writer (results full/partial/zero/error/Pending)",
+        "rule": AD_RULE + "; the tokio adapters with ReadBufs of every pre-fill 0..2 x capacity {0,1,4}, Pending at any poll, flush and shutdown",
+        "level_text": ("Definitional theorems, said plainly: in the model every adapter write/flush/shutdown is one call on the wrapped read-writer with the "
+                       "same bytes whose result (count, error, Pending) is returned unchanged; writes leave first / the allowance / the read script untouched; "
+                       "reads append only read calls. The correspondence carries the weight: for every interleaving explored the inner write/flush/shutdown "
+                       "log of the real adapters is exactly the adapter-level sequence with identical bytes and results (evaluated on the implementation's log)."),
+    },
+    "C14": {
+        "module": "FBV.Props.C14",
+        "theorems": ["FBV.pollLoop_outcome", "FBV.C14.pending_only_if_reader_pending", "FBV.C14.drive_outcome", "FBV.C15.async_eq_blocking",
+                     "FBV.C15.drive_spec", "FBV.C15.restart_eq_resume"],
+        "jobs": tokio_jobs("arf"),
+        "tie": "T2 hand-driven polls of the real read_frame / copy_once_from futures over a scripted AsyncRead, every subset of reader polls Pending",
+        "rule": ("every stream over {a,CR,LF} of length <=3 (quick; <=4 thorough) x every composition into chunks x every subset (<=2 quick) of reader polls "
+                 "answered Pending x SIZE {1..4} x 3 deframers; seeded scenarios with pre-loaded buffers, reader errors at any poll, SIZE<=64, a rejecting "
+                 "deframer, and copy_once_from futures; distinct = distinct scenario; non-trivial = more than two polls"),
+        "level_text": ("Kernel-checked: the loop theorem is proved for scripts containing Pending, so a poll is Pending only if the reader was, and then every "
+                       "delivered byte is in the buffer; for ANY placement of Pending (and of reader errors) the conversation ends with the specification's "
+                       "result or the reader's error with nothing lost — equal to the blocking call on the same chunks (async_eq_blocking). The async "
+                       "read_frame body is source-identical to the blocking loop; reading `async fn` as a resumable state machine with one await point is "
+                       "trusted; the tie polls the real futures by hand (tokio links the registry copy fixed-buffer 0.3.1)."),
+        "trusted_extra": ["source-level reading of `async fn` as a state machine with one await point; tokio::io::AsyncReadExt::read modelled as stateless"],
+    },
+    "C15": {
+        "module": "FBV.Props.C15",
+        "theorems": ["FBV.C15.restart_eq_resume", "FBV.C15.pending_state", "FBV.C15.drive_spec", "FBV.pollLoop_outcome"],
+        "jobs": tokio_jobs("arfc"),
+        "tie": "T2 as C14 with every Pending a cancellation point: the future is dropped, readable() inspected, a new call started",
+        "rule": ("the C14 scenarios x every non-empty subset of their pending points as cancellation points (drop the future, inspect readable(), start a new "
+                 "call on the same buffer and reader); seeded scenarios with random resume/cancel choices"),
+        "level_text": ("Kernel-checked: at every pending point the buffer is compacted, holds no complete frame and has room, so a new call from the top is "
+                       "the same function as resuming (restart_eq_resume); hence for ANY pattern of cancellations at pending points the frames and outcome are "
+                       "those of the uncancelled run (drive_spec over all choice lists); the model's future carries no bytes. Tied by dropping the real "
+                       "future at every pending point, singly and in every subset."),
+        "trusted_extra": ["source-level reading of `async fn` as a state machine with one await point"],
+    },
+    "C16": {
+        "module": "FBV.Props.C16",
+        "theorems": ["FBV.C16.chain_bisim", "FBV.C16.chain_pending_only_from_inner", "FBV.C16.chain_keeps_filled", "FBV.C16.take_exposes_at_most_remaining",
+                     "FBV.C16.take_at_zero", "FBV.C16.take_pending_loses_nothing", "FBV.C16.take_eq_tokio", "FBV.C16.Legacy.legacy_skips_first"],
+        "jobs": tokio_jobs("achain", "atake"),
+        "tie": "T2 three-way poll by poll: implementation, real tokio chain()/take() over twin streams, model",
+        "rule": ("scripted async stream pairs (<=2-3 actions from chunk/scribbling chunk/EOF/error/Pending) x every schedule of <=3 ReadBufs from "
+                 "{(prefill 0,cap 0),(0,1),(0,4),(1,0),(2,2)} x limits {0,1,2,3,5,u64::MAX}; first = a real AsyncFixedBuf at every read offset; seeded random "
+                 "scenarios with writes/flush/shutdown and Pending anywhere; distinct = distinct scenario; non-trivial = more than one poll"),
+        "level_text": ("Kernel-checked for ARBITRARY AsyncRead implementations honouring poll_read's contract and every ReadBuf (any pre-fill, any remaining capacity "
+                       "incl. none): AsyncReadWriteChain::poll_read is poll-for-poll tokio's Chain (bisimulation), keeps the filled prefix, is Pending only if a polled "
+                       "stream was; AsyncReadWriteTake is poll-for-poll tokio's Take, shows the inner stream at most the remaining allowance, debits nothing on "
+                       "Pending/Err. The zero-capacity defect found on the pinned tree is recorded as a theorem about the legacy function and was repaired by a fix: commit."),
+        "trusted_extra": ["tokio::io::util::{Chain,Take} and ReadBuf modelled by hand from tokio 1.53 source (tied three-way on every run)"],
+    },
+    "C17": {
+        "module": "FBV.Props.C17",
+        "theorems": ["FBV.C17.poll_read_spec", "FBV.C17.poll_write_spec", "FBV.C17.poll_write_effect", "FBV.C17.poll_flush_spec", "FBV.C17.bufPollRead_ok"],
+        "jobs": tokio_jobs("at"),
+        "tie": "T1 through the tokio crate (registry FixedBuf): every small state x every poll and Deref'd call; tokio combinators judged as Read/Write histories",
+        "rule": ("breadth-first over every state of AsyncFixedBuf<N>, N<=3 (quick; 4 thorough), x poll_read with every ReadBuf (prefill 0..2, capacity 0..N+1), "
+                 "poll_write of every payload, flush, shutdown and the Deref'd write_bytes/read_bytes/read_all/shift/clear; 2,000 seeded runs of "
+                 "read/read_exact/write_all/copy; distinct = distinct (state, call); non-trivial = state-changing"),
+        "level_text": ("Kernel-checked: poll_read is always Ready(Ok), appends min(unfilled capacity, len()) unread bytes after the existing contents without "
+                       "disturbing them and has exactly the buffer effect of Read::read; poll_write is all-or-nothing with InvalidData and no change when it does "
+                       "not fit; flush/shutdown have no effect; so any history of polls is a history of Read/Write calls to which C01/C03 apply. That tokio's "
+                       "combinators only issue such polls is tokio's contract (exercised, not proved)."),
     },
     "C19": {
         "module": "FBV.Props.C19",
